@@ -43,6 +43,15 @@ def _color_layer_names(twin):
     return names
 
 
+def _dotted_circle_name(twin):
+    layer = twin["layers"].get(twin["defaultLayer"])
+    if isinstance(layer, dict):
+        for name, g in layer["glyphs"].items():
+            if isinstance(g, dict) and 0x25CC in g.get("unicodes", []):
+                return name
+    return "uni25CC"
+
+
 def _has_dotted_circle_filter(twin, step):
     for d in twin["lib"].get(UFO2FT + "filters") or []:
         if str(d.get("name", "")).replace(" ", "").lower() in ("dottedcircle", "dottedcirclefilter"):
@@ -97,10 +106,13 @@ def _match(f, rest, twin, steps):
     if site == "DottedCircleFilter.ensure_base":
         if not any(_has_dotted_circle_filter(twin, s) for s in steps):
             return False
+        # ensure_base either rewrites features.text (only when it has a GDEF table
+        # block) or sets lib[public.openTypeCategories][<dotted circle>] = 'base'
         if rest.startswith("features"):
-            return True
-        return bool(re.match(r"lib/public\.openTypeCategories/[^/ ]+ \(added\)$", rest)
-                    or re.match(r"lib/public\.openTypeCategories/[^/ ]+ \(.* -> 'base'\)$", rest))
+            return "table GDEF" in (twin.get("features") or "")
+        dc = _dotted_circle_name(twin)
+        return bool(re.match(r"lib/public\.openTypeCategories/%s \(added\)$" % re.escape(dc), rest)
+                    or re.match(r"lib/public\.openTypeCategories/%s \(.* -> 'base'\)$" % re.escape(dc), rest))
     if site == "setupTable_MATH.constants.pop":
         return rest == "lib/com.nagwa.MATHPlugin.constants/MinConnectorOverlap (removed)"
     return False
